@@ -50,6 +50,8 @@ pub struct Node {
     pub dir: PathBuf,
     pub deliveries: Arc<Mutex<Vec<Delivery>>>,
     _net_dir: Option<tempfile::TempDir>,
+    /// receiver end of the pool's relay channel (needed to build a SyncShared / Relayer)
+    pub relay_rx: Mutex<Option<ckb_channel::Receiver<ckb_tx_pool::service::TxVerificationResult>>>,
 }
 
 #[derive(Clone, Debug)]
@@ -131,8 +133,9 @@ impl Node {
             drop(pack.take_tx_pool_builder());
         }
         let scope = ChainServiceScope::new(pack.take_chain_services_builder());
+        let relay_rx = Mutex::new(Some(pack.take_relay_tx_receiver()));
         drop(pack);
-        Ok(Node { shared, scope: Some(scope), dir: dir.to_path_buf(), deliveries: Arc::new(Mutex::new(vec![])), _net_dir: net_dir })
+        Ok(Node { shared, scope: Some(scope), dir: dir.to_path_buf(), deliveries: Arc::new(Mutex::new(vec![])), _net_dir: net_dir, relay_rx })
     }
 
     pub fn chain(&self) -> &ChainController {
